@@ -566,19 +566,23 @@ func runJobctlScenarios(c *Ctx) {
 		c.Nontrivial()
 	})
 
-	// F30 (known finding).  C08: "a retry is never created before retryDelaySeconds have elapsed
-	// since the previous attempt finished".  A pod that fails WITHOUT container termination info
-	// (kubelet eviction, node lost, DeadlineExceeded without activeDeadlineSeconds):
-	// PodTask.GetFinishTimestamp falls back to status.startTime (else the creation time), so the finish
-	// time recorded for the attempt is the instant it STARTED.  retryDelaySeconds 600, the pod runs for
-	// an hour and is evicted: the retry is created 2 s after the attempt really ended.  Inside the
-	// kubelet contract; the ground truth is the instant at which the simulated kubelet ended the pod.
-	c.RunScenario("f30-evicted-task-retry-ignores-delay", func() {
+	// F30 (REPAIRED; regression replay — fails on the tree before the repair).  C08: "a retry is never
+	// created before retryDelaySeconds have elapsed since the previous attempt finished".  A pod that
+	// fails WITHOUT container termination info (kubelet eviction, node lost, DeadlineExceeded without
+	// activeDeadlineSeconds): PodTask.GetFinishTimestamp falls back to status.startTime (else the
+	// creation time); before the repair that was recorded as the finish time of the attempt — the instant
+	// it STARTED — and with retryDelaySeconds 600 the retry of a pod that had run for an hour was created
+	// 2 s after it was evicted.  Now PodTask.GetTaskRef records ktime.Now() for such a pod, and
+	// jobutil.GetTaskRef keeps the first recorded value: the recorded finish time is the clock of the pass
+	// that saw the eviction, the retry waits for the delay from there.  Inside the kubelet contract; the
+	// ground truth is the instant at which the simulated kubelet ended the pod (monitor
+	// C08:retry-delay-true-finish, at full strength on every history).  Lean:
+	// C08Side.evicted_retry_respects_delay.
+	c.RunScenario("f30-evicted-task-retry-respects-delay", func() {
 		w := newJobctlSc(c, func(j *execution.Job) {
 			j.Spec.Template.MaxAttempts = i64p(2)
 			j.Spec.Template.RetryDelaySeconds = i64p(600)
 		})
-		w.keepMonitors = true
 		w.flush()
 		w.work() // creates job-<h>-0, records it
 		w.flush()
@@ -594,19 +598,44 @@ func runJobctlScenarios(c *Ctx) {
 		four := 4
 		w.forceKind = &four
 		w.kubelet(w.apiPod(name), 3) // evicted: phase Failed, no container status; the attempt ends NOW
+		evicted := w.now()
 		w.flush()
-		w.work() // the failure is recorded, with the finish time = the pod's START time
+		w.work() // the failure is recorded, with the finish time = the clock of this pass
 		w.flush()
-		w.adv(2)
-		w.work() // (a timer for start + 600 s is long due) the retry is created 2 s after the eviction
-		w.flush()
-		if len(w.ownedPods()) == 2 {
-			c.Count("jc.observed.retry-created-right-after-eviction")
+		recorded := func() int64 {
+			if cur := w.apiJob(); cur != nil {
+				for _, r := range cur.Status.Tasks {
+					if r.Name == name && !r.FinishTimestamp.IsZero() {
+						return r.FinishTimestamp.UnixNano()
+					}
+				}
+			}
+			return -1
 		}
-		w.adv(600) // the retry delay, counted from the eviction, has certainly passed now
+		first := recorded()
+		if first < evicted {
+			c.Violate("C08", "scenario-f30-recorded-finish", "the finish time recorded for the evicted attempt %s is %d s, before the eviction at %d s", name, first/1e9, evicted/1e9)
+		}
+		w.adv(2)
+		w.work() // 2 s after the eviction: the pod is read again, at a later clock; no retry yet
+		w.flush()
+		if n := len(w.ownedPods()); n != 1 {
+			c.Violate("C08", "scenario-f30-retry-too-early", "%d pods 2 s after the eviction of %s (retryDelaySeconds 600)", n, name)
+		}
+		if again := recorded(); again != first {
+			c.Violate("C08", "scenario-f30-recorded-finish", "the finish time recorded for %s moved from %d s to %d s when the pod was read again", name, first/1e9, again/1e9)
+		}
+		w.adv(596) // 598 s after the eviction
+		w.drain()
+		if n := len(w.ownedPods()); n != 1 {
+			c.Violate("C08", "scenario-f30-retry-too-early", "%d pods 598 s after the eviction of %s (retryDelaySeconds 600)", n, name)
+		}
+		w.adv(4) // the retry delay, counted from the eviction, has passed now
 		w.drain()
 		if n := len(w.ownedPods()); n != 2 {
 			c.Violate("C08", "scenario-f30-shape", "the retry was not created even 602 s after the eviction (%d pods)", n)
+		} else {
+			c.Count("jc.observed.retry-created-after-delay-from-eviction")
 		}
 		w.settle(2)
 		c.Nontrivial()
